@@ -156,7 +156,7 @@ func (g *cgen) iterExpr() string {
 // bodyDecl sometimes puts a top-level declaration into the loop body (:=, var, or a
 // redeclaration of the loop variable itself), which decides how the lowering scopes the body.
 func (g *cgen) bodyDecl(v string) {
-	switch g.rng.Intn(6) {
+	switch g.rng.Intn(8) {
 	case 0:
 		g.line("d%d := %s * 2", g.nid(), v)
 		g.line("tr.V(%d, d%d)", g.nid(), g.id-1)
@@ -164,6 +164,23 @@ func (g *cgen) bodyDecl(v string) {
 	case 1:
 		g.line("var q%d = %s + 1", g.nid(), v)
 		g.line("tr.V(%d, q%d)", g.nid(), g.id-1)
+		g.feats["body-declares"] = true
+	case 2:
+		// the body (its own scope) declares a NEW variable named like the loop variable together with another
+		// new one; a closure and a pointer taken before keep denoting the loop variable
+		id := g.nid()
+		g.line("get%d, ptr%d := func() int { return %s }, &%s", id, id, v, v)
+		g.line("h%d, %s := %s/2, %s*10", id, v, v, v)
+		g.line("tr.V(%d, h%d+%s)", g.nid(), id, v)
+		g.line("tr.V(%d, get%d()+*ptr%d)", g.nid(), id, id)
+		g.feats["body-declares"] = true
+		g.feats["body-redeclares-loop-var-partially"] = true
+	case 3:
+		// a constant named like the loop variable (the rest of the body reads the constant)
+		id := g.nid()
+		g.line("get%d := func() int { return %s }", id, v)
+		g.line("const %s = %d", v, 70+g.rng.Intn(9))
+		g.line("tr.V(%d, %s+get%d())", g.nid(), v, id)
 		g.feats["body-declares"] = true
 	}
 }
